@@ -587,6 +587,18 @@ func (r *runner) submitEth(rc *rec) {
 			r.label("dup:unjudged(capacity-or-variants)")
 		}
 	default:
+		if err == nil {
+			// "rejects exact duplicates": the pool has just said that it took this transaction; the
+			// same bytes offered again at once (what a peer does that received the announcement) must be
+			// refused, whatever else the pool holds
+			if err2 := r.pool.ReceiveTx(rc.raw); err2 == nil {
+				if r.fail("accepted-tx-accepted-again-immediately", "tx %v was accepted (ReceiveTx returned nil) and the byte-identical resubmission right after it was accepted again: the pool reports as taken what it does not hold, and every node that receives the announcement will announce it again", rc) {
+					return
+				}
+			} else {
+				r.label("dup:immediate-resubmission-rejected")
+			}
+		}
 		others := len(m.may[a][rc.nonce])
 		switch {
 		case atCap:
